@@ -43,6 +43,8 @@ TNext ==
         /\ inYield' = (IF Ev.by > 0 THEN [inYield EXCEPT ![Ev.by] = FALSE] ELSE inYield)
         /\ UNCHANGED <<st, arg, tok, cst, starts, mg, inpool, expect, rin>>)
     \/ (Is("FreeCall") /\ ByOK(Ev.by) /\ NoOp)
+    \* a free that must be rejected (the caller frees itself): documented error, the handle is left as it was
+    \/ (Is("FreeRej") /\ Ev.ret = 1 /\ Ev.same = 1 /\ NoOp)
     \/ (Is("FreeRet") /\ FreeRet(Ev.by, Ev.u, Ev.null, Ev.tok))
     \/ (Is("Revive") /\ Revive(Ev.by, Ev.u, Ev.arg, Ev.pool))
     \/ (Is("ReviveRet") /\ ByOK(Ev.by) /\ NoOp)
